@@ -54,6 +54,10 @@ class Outcome(object):
             d["fired"] = self.fired
         return d
 
+    def key(self):
+        """What enters outcome digests: no message text (messages embed absolute scratch paths)."""
+        return [self.kind, self.exc_type, self.exc_site]
+
     def io_events(self):
         return [e for e in self.events if "io" in e]
 
